@@ -336,24 +336,28 @@ for _op in range(NOP):
         _f.__doc__ = _f.__doc__.replace("0 <= c < CMAX", "c == 0")
     globals()[_n] = _f
 
-DL = [0, 1, 4, 5, 9, 10, 13, 14, 16, 21]    # leaves used at depth 2
+DL = [0, 4, 13, 14, 16, 21, 5, 9, 10, 1]    # leaves used at depth 2 (quick: the first 4; thorough: all 10)
+NDL = tiered(4, 10)
+OP2 = [0, 1, 5, 8, 2, 3, 4, 6, 7, 9, 10, 11]   # inner operators (quick: And, Or, AndNot, Not; thorough: all 12)
+NOP2 = tiered(4, 12)
+NPOS = tiered(2, 3)
 
 
-@h(bounds="op(.., op2(a, b), ..) for op, op2 over all 12 operators, a, b over 10 leaves (terms, overlapping term ranges, overlapping numeric "
-          "ranges, Every, Every(f), NullQuery, Not), inner position 0..2, 8 sibling patterns",
-   funcs=FUNCS, examples=[dict(op=0, op2=1, a=0, b=1, c=2, pos=1)], outside=OUT, timeout=dict(quick=900, thorough=3000))
+@h(bounds="op(.., op2(a, b), ..) for op over all 12 operators, op2 over 4 (thorough 12), a, b over 4 (thorough 10) leaves (term, term range, Every, "
+          "Every(f), NullQuery, Not, numeric ranges), inner position 0..1 (thorough 0..2), 1 (thorough 8) sibling patterns",
+   funcs=FUNCS, examples=[dict(op=0, op2=1, a=0, b=1, c=0, pos=1)], outside=OUT, timeout=dict(quick=900, thorough=6000))
 def c15_nested(op: int, op2: int, a: int, b: int, c: int, pos: int) -> Optional[str]:
     """
-    pre: 0 <= op < NOP and 0 <= op2 < NOP and 0 <= a < 10 and 0 <= b < 10 and 0 <= c < CN and 0 <= pos < 3
+    pre: 0 <= op < NOP and 0 <= op2 < NOP2 and 0 <= a < NDL and 0 <= b < NDL and 0 <= c < CN and 0 <= pos < NPOS
     post: _ is None
     """
     with notrace():
-        r, nontrivial = run_tree(pick(op, NOP), DL[pick(a, 10)], DL[pick(b, 10)], pick(c, CN), pick(op2, NOP), pick(pos, 3))
+        r, nontrivial = run_tree(pick(op, NOP), DL[pick(a, NDL)], DL[pick(b, NDL)], pick(c, CN), OP2[pick(op2, NOP2)], pick(pos, NPOS))
     tick(nontrivial)
     return r
 
 
-CN = tiered(2, 8)
+CN = tiered(1, 8)
 
 
 def _witness(name, kfid, mk):
